@@ -139,6 +139,11 @@ pub async fn type_definition(
                                                 if Entry::from(entry).is_default() {
                                                     return Ok(None);
                                                 }
+                                                // a type of the same name has created this type
+                                                // only if it is this very type
+                                                if t.data_type != v.data_type {
+                                                    return Ok(None);
+                                                }
                                                 return Ok(Some(Location {
                                                     uri,
                                                     range: as_pos_range(
